@@ -13,6 +13,7 @@ def run(ctx):
     ctx.rule("R-LISTENER-CONTAIN", "exceptions from frame handling are contained at the bus listener", floor=1)
     ctx.rule("R-RAISE-CONFINED", "explicit raises of the data link layer are not reachable from the job thread", floor=2)
     ctx.rule("R-PEER-255", "control frames from the illegal source address 255 never reach the stack's own broadcast sessions", floor=6)
+    ctx.rule("R-DEADLINE-FINITE", "no receive session is ever given the `no timer` deadline 0: each one expires", floor=4)
     for fd in (False, True):
         L = T.Layer(ctx, fd=fd)
         TM.rearm(ctx, L)
@@ -22,7 +23,11 @@ def run(ctx):
         R.snapshot(ctx, L)
         R.raise_confined(ctx, L)
         R.bam_key_guard(ctx, L)
+        TM.deadline_finite(ctx, L)
     R.listener_contain(ctx)
+    from rules import ecu as _E
+    ctx.rule("R-WAKE-NONBLOCK", "posting a wake-up token never blocks: no burst of frames can stop the job thread on its own queue", floor=1)
+    _E.wake_nonblocking(ctx)
     ctx.rule("R-LOOP-PROGRESS", "every way round a while-loop of the stack changes something its exit tests read (no frame can make a thread spin)", floor=8)
     R.loop_progress(ctx, ("J1939_21", "J1939_22", "ElectronicControlUnit", "ControllerApplication"))
     return "liveness-shaped structural clauses of C07 decided on both data link layers and the bus listener"
